@@ -26,6 +26,15 @@ def replay_info(msgs, enc, blocked):
         return True, 'blocked file of %d bytes (%d blocks) reported not blocked' % (len(data), len(data) // 1014), 'C17/blocked'
     if not blocked and data[1012:1014] != b'@@' and info.get('isBlocked') is not False:
         return True, 'unblocked file reported blocked', 'C17/unblocked'
+    # the same file handed over as other kinds of binary stream: the verdict does not depend on the stream type
+    for name, stream in (('buffered reader with a 512-byte buffer', io.BufferedReader(io.BytesIO(data), buffer_size=512)),
+                         ('buffered reader with a 16-byte buffer', io.BufferedReader(io.BytesIO(data), buffer_size=16))):
+        try:
+            other = mciipm.ipm_info(stream)
+        except Exception as e:
+            return True, 'ipm_info raised %s on a %s' % (type(e).__name__, name), 'C17/exception'
+        if {k: other.get(k) for k in ('isValidIPM', 'encoding', 'isBlocked')} != {k: info.get(k) for k in ('isValidIPM', 'encoding', 'isBlocked')}:
+            return True, 'verdict differs on a %s: %s' % (name, {k: other.get(k) for k in ('isValidIPM', 'isBlocked', 'reason')}), 'C17/stream-type'
     return False, 'ok', None
 
 
